@@ -47,6 +47,8 @@ pub enum SendFault {
     NetUnreach,
     Perm,
     Short,
+    /// EINTR: the call was interrupted by a signal before anything was sent
+    Interrupted,
 }
 
 pub struct SimSocket {
@@ -58,11 +60,13 @@ pub struct SimSocket {
     pub sends: u32,
     pub faults_fired: u32,
     pub address_fails: bool,
+    /// uplink down: every send fails with ENETUNREACH while set
+    pub down: bool,
 }
 
 impl SimSocket {
     pub fn new(addr: SocketAddr) -> Self {
-        SimSocket { addr, inbox: VecDeque::new(), outbox: Vec::new(), fault_at: None, sends: 0, faults_fired: 0, address_fails: false }
+        SimSocket { addr, inbox: VecDeque::new(), outbox: Vec::new(), fault_at: None, sends: 0, faults_fired: 0, address_fails: false, down: false }
     }
 }
 
@@ -94,6 +98,10 @@ impl Socket for SimSocket {
 
     fn send(&mut self, data: &[u8], addr: SocketAddr) -> Result<usize, io::Error> {
         self.sends += 1;
+        if self.down {
+            self.faults_fired += 1;
+            return Err(io::Error::from_raw_os_error(libc::ENETUNREACH));
+        }
         if let Some((n, fault)) = self.fault_at {
             if n == self.sends {
                 self.fault_at = None;
@@ -103,6 +111,7 @@ impl Socket for SimSocket {
                     SendFault::NetUnreach => Err(io::Error::from_raw_os_error(libc::ENETUNREACH)),
                     SendFault::Perm => Err(io::Error::from_raw_os_error(libc::EPERM)),
                     SendFault::Short => Ok(data.len() / 2),
+                    SendFault::Interrupted => Err(io::Error::from_raw_os_error(libc::EINTR)),
                 };
             }
         }
